@@ -73,11 +73,12 @@ type Ctx struct {
 	fresh  int
 	ufuncs map[string]*UFunc
 	// lazily instantiated facts about terms (objof axioms etc.)
-	sideFacts []*Term
-	objofSeen map[*Term]bool
-	preMemo   map[*Term]bool
-	selDepth  int
-	mkMu      sync.Mutex
+	sideFacts  []*Term
+	objofSeen  map[*Term]bool
+	preMemo    map[*Term]bool
+	selDepth   int
+	mkMu       sync.Mutex
+	contentUFs map[string]int // uninterpreted functions congruent in the *content* of an (array, offset, length) triple starting at this argument index
 }
 
 type UFunc struct {
@@ -1106,6 +1107,9 @@ func absName(t *Term) (string, bool) {
 }
 
 func (c *Ctx) script(asserts []*Term, values []*Term, abs bool) (string, bool) {
+	if ax := c.contentAxioms(asserts); len(ax) > 0 {
+		asserts = append(append([]*Term{}, asserts...), ax...)
+	}
 	// collect reachable nodes, refcounts
 	ref := map[*Term]int{}
 	var order []*Term
@@ -1215,4 +1219,76 @@ func (c *Ctx) script(asserts []*Term, values []*Term, abs bool) (string, bool) {
 		sb.WriteString("))\n")
 	}
 	return sb.String(), hard
+}
+
+// contentUF registers name as a function whose arguments i, i+1, i+2 are an
+// (array, offset, length) triple of which only the denoted bytes matter.
+func (c *Ctx) contentUF(name string, i int) {
+	c.mkMu.Lock()
+	defer c.mkMu.Unlock()
+	if c.contentUFs == nil {
+		c.contentUFs = map[string]int{}
+	}
+	c.contentUFs[name] = i
+}
+
+// contentAxioms: for every pair of applications of a content function in the
+// terms, equal other arguments and equal denoted bytes give equal results.
+func (c *Ctx) contentAxioms(asserts []*Term) []*Term {
+	c.mkMu.Lock()
+	n := len(c.contentUFs)
+	idx := map[string]int{}
+	for k, v := range c.contentUFs {
+		idx[k] = v
+	}
+	c.mkMu.Unlock()
+	if n == 0 {
+		return nil
+	}
+	seen := map[*Term]bool{}
+	apps := map[string][]*Term{}
+	var visit func(t *Term)
+	visit = func(t *Term) {
+		if seen[t] {
+			return
+		}
+		seen[t] = true
+		if t.Op == "app" && !t.hb {
+			if _, ok := idx[t.Name]; ok {
+				apps[t.Name] = append(apps[t.Name], t)
+			}
+		}
+		for _, a := range t.Args {
+			visit(a)
+		}
+	}
+	for _, a := range asserts {
+		visit(a)
+	}
+	var out []*Term
+	for name, ts := range apps {
+		i := idx[name]
+		sort.Slice(ts, func(a, b int) bool { return ts[a].id < ts[b].id })
+		if len(ts) > 24 {
+			ts = ts[:24]
+		}
+		for x := 0; x < len(ts); x++ {
+			for y := x + 1; y < len(ts); y++ {
+				t1, t2 := ts[x], ts[y]
+				var conds []*Term
+				for j := range t1.Args {
+					if j == i || j == i+1 {
+						continue
+					}
+					conds = append(conds, c.Eq(t1.Args[j], t2.Args[j]))
+				}
+				k := c.Bound("kx", BV64)
+				same := c.Forall([]*Term{k}, c.Implies(c.BVCmp("bvult", k, t1.Args[i+2]),
+					c.Eq(c.Select(t1.Args[i], c.BVBin("bvadd", t1.Args[i+1], k)), c.Select(t2.Args[i], c.BVBin("bvadd", t2.Args[i+1], k)))))
+				conds = append(conds, same)
+				out = append(out, c.Implies(c.And(conds...), c.Eq(t1, t2)))
+			}
+		}
+	}
+	return out
 }
